@@ -1,11 +1,141 @@
-import CelmaVerif.Model.ProgArgs.Groups
-/- C02 — property theorems (under construction: see DESIGN.md) -/
-namespace CelmaVerif.Props.C02
-open CelmaVerif CelmaVerif.ProgArgs
+import CelmaVerif.Lemmas.RulesSound
+import CelmaVerif.Lemmas.RulesExample
+/-
+  C02 — "No command line that breaks a declared rule is silently accepted."
 
-/-- placeholder obligation replaced by the real theorems: the model's begin iterator on a one-word
-    argv is the end iterator -/
-theorem C02_begin_single (w : Word) : (It.begin [w]).isOk = true := by
-  simp [It.begin, It.mkEnd, getWord, Res.isOk]
+  Rules layer: the theorems below are about the abstract command line (the list of uses — which
+  argument, which value, given by key or as a free value — that the pairing layer extracts from
+  argv) and `evalUses` (what the handler does with it).  The declarative reading of the rules is
+  Model/ProgArgs/Spec.lean; the hypotheses on the configuration are `Cfg.WellFormed`
+  (Lemmas/RulesBase.lean).
+-/
+namespace CelmaVerif.Props.C02
+open CelmaVerif CelmaVerif.Keys CelmaVerif.ProgArgs
+
+/-- Soundness of all rules together: for every well-formed configuration (keys of the table pairwise
+    distinct as `addArgument` guarantees, constraint keys spell table keys, maximum cardinalities
+    not below -1), all initial destination values (one per argument) and every abstract command
+    line, the evaluation returns normally only if the command line obeys every declared rule
+    (`Obeys`: mandatory ∧ values ∧ cardinality ∧ excludes ∧ requires ∧ handler constraints). -/
+theorem C02_rules_sound (cfg : Cfg) (wf : cfg.WellFormed) (inits : List DVal)
+    (hin : cfg.args.length ≤ inits.length) (us : List Use) (h : HState)
+    (e : evalUses cfg (cfg.initState inits) us = .ok h) : Obeys cfg inits us :=
+  rules_sound wf hin e
+
+/-- Mandatory: if the evaluation returns normally, every argument declared mandatory is used at
+    least once — or is a list destination that already held elements (`hasValue()` of a container is
+    "not empty"). -/
+theorem C02_mandatory (cfg : Cfg) (wf : cfg.WellFormed) (inits : List DVal)
+    (hin : cfg.args.length ≤ inits.length) (us : List Use) (h : HState)
+    (e : evalUses cfg (cfg.initState inits) us = .ok h)
+    (i : Nat) (d : ArgDef) (hd : cfg.args[i]? = some d) (hm : d.mandatory = true) :
+    (∃ u ∈ us, u.arg = i) ∨ (d.kind = .vecInt ∧ ∃ l, inits[i]? = some (.vec l) ∧ l ≠ []) :=
+  (rules_sound wf hin e).mandatory i d hd hm
+
+/-- Values: if the evaluation returns normally, every value given converts to the destination type
+    of its argument and passes every check attached to it (for a list value: every element). -/
+theorem C02_values_checked (cfg : Cfg) (wf : cfg.WellFormed) (inits : List DVal)
+    (hin : cfg.args.length ≤ inits.length) (us : List Use) (h : HState)
+    (e : evalUses cfg (cfg.initState inits) us = .ok h) (u : Use) (hu : u ∈ us) :
+    ∃ d, cfg.args[u.arg]? = some d ∧ ScalarValueOk d u.val :=
+  (rules_sound wf hin e).values u hu
+
+/-- Cardinality: if the evaluation returns normally, the number of values given to each argument
+    (one per use, one more per further element of a list value) is within what its cardinality
+    allows: at most the maximum; zero or exactly `n`; zero or within the range. -/
+theorem C02_cardinality (cfg : Cfg) (wf : cfg.WellFormed) (inits : List DVal)
+    (hin : cfg.args.length ≤ inits.length) (us : List Use) (h : HState)
+    (e : evalUses cfg (cfg.initState inits) us = .ok h) (i : Nat) (d : ArgDef) (hd : cfg.args[i]? = some d) :
+    d.card.MetBy (valuesGiven cfg i us) :=
+  (rules_sound wf hin e).cardinality i d hd
+
+/-- Excludes: if the evaluation returns normally, no argument is given by key after a use of an
+    argument that excludes it: whenever the use at position `p` is of an argument with an
+    "excludes" constraint listing `k`, no later key occurrence (position `q > p`) is of an argument
+    that `k` designates. -/
+theorem C02_excludes (cfg : Cfg) (wf : cfg.WellFormed) (inits : List DVal)
+    (hin : cfg.args.length ≤ inits.length) (us : List Use) (h : HState)
+    (e : evalUses cfg (cfg.initState inits) us = .ok h)
+    (p q : Nat) (u w : Use) (d : ArgDef) (ks : List Key) (k : Key)
+    (hpq : p < q) (hu : us[p]? = some u) (hw : us[q]? = some w) (hwi : w.ident = true)
+    (hd : cfg.args[u.arg]? = some d) (hc : (CType.excluded, ks) ∈ d.constraints) (hk : k ∈ ks) :
+    ¬ Designates cfg k w.arg :=
+  (rules_sound wf hin e).excludes p q u w d ks k hpq hu hw hwi hd hc hk
+
+/-- Requires: if the evaluation returns normally, every argument required by a used argument is
+    given by key after that use (the requirement takes effect where the requiring argument is
+    used). -/
+theorem C02_requires (cfg : Cfg) (wf : cfg.WellFormed) (inits : List DVal)
+    (hin : cfg.args.length ≤ inits.length) (us : List Use) (h : HState)
+    (e : evalUses cfg (cfg.initState inits) us = .ok h)
+    (p : Nat) (u : Use) (d : ArgDef) (ks : List Key) (k : Key)
+    (hu : us[p]? = some u) (hd : cfg.args[u.arg]? = some d)
+    (hc : (CType.required, ks) ∈ d.constraints) (hk : k ∈ ks) :
+    ∃ (q : Nat) (w : Use), p < q ∧ us[q]? = some w ∧ w.ident = true ∧ Designates cfg k w.arg :=
+  (rules_sound wf hin e).requires p u d ks k hu hd hc hk
+
+/-- Handler constraints: if the evaluation returns normally, then for every handler constraint —
+    all-of: every listed argument is given by key; any-of: at most one key occurrence of a listed
+    argument; one-of: exactly one. -/
+theorem C02_handler_constraints (cfg : Cfg) (wf : cfg.WellFormed) (inits : List DVal)
+    (hin : cfg.args.length ≤ inits.length) (us : List Use) (h : HState)
+    (e : evalUses cfg (cfg.initState inits) us = .ok h) (g : GDef) (hg : g ∈ cfg.globals) :
+    match g.kind with
+    | .allOf => ∀ k ∈ g.keys, ∃ u ∈ us, u.ident = true ∧ Designates cfg k u.arg
+    | .anyOf => (listedUses cfg g us).length ≤ 1
+    | .oneOf => (listedUses cfg g us).length = 1 :=
+  (rules_sound wf hin e).globals g hg
+
+/-! ### non-vacuity
+
+  `RulesExample.cfg` (Lemmas/RulesExample.lean): `-v,--verbose` (flag); `-n,--num` (int, mandatory, at
+  most once, 0 ≤ value < 10); `-o,--out` (string, requires `-n`); `-q,--quiet` (flag, excludes
+  `--verbose`); `-l,--list` (list of int, 1 to 3 values); handler constraint one-of( `-v`, `-q`).
+  `run us` = `evalUses cfg (cfg.initState inits) us`.  One accepted command line, and one rejected
+  command line per rule. -/
+
+open CelmaVerif.ProgArgs.RulesExample in
+/-- the hypotheses of the theorems are satisfiable -/
+example : RulesExample.cfg.WellFormed ∧ RulesExample.cfg.args.length ≤ RulesExample.inits.length :=
+  ⟨cfg_wf, by decide⟩
+
+open CelmaVerif.ProgArgs.RulesExample in
+/-- accepted: `-q -o file -n 5 -l 1,2` -/
+example : (run [useQ, useO "file", useN "5", useL "1,2"]).isOk = true := by decide
+
+open CelmaVerif.ProgArgs.RulesExample in
+/-- … and therefore obeys the rules, by the theorem -/
+example : Obeys RulesExample.cfg RulesExample.inits [useQ, useO "file", useN "5", useL "1,2"] := by
+  cases e : run [useQ, useO "file", useN "5", useL "1,2"] with
+  | ok h => exact C02_rules_sound _ cfg_wf _ (by decide) _ h e
+  | throw x => exact absurd (show (run [useQ, useO "file", useN "5", useL "1,2"]).isOk = true by decide) (by rw [e]; simp [Res.isOk])
+  | oob x => exact absurd (show (run [useQ, useO "file", useN "5", useL "1,2"]).isOk = true by decide) (by rw [e]; simp [Res.isOk])
+
+open CelmaVerif.ProgArgs.RulesExample in
+/-- rejected, mandatory: `-q -o file -l 1,2` (no `-n`) -/
+example : (run [useQ, useO "file", useL "1,2"]).isThrow = true := by decide
+
+open CelmaVerif.ProgArgs.RulesExample in
+/-- rejected, values: `-q -n 12` (check 0 ≤ value < 10), `-q -n 1x` (not a number) -/
+example : (run [useQ, useN "12"]).isThrow = true ∧ (run [useQ, useN "1x"]).isThrow = true := by decide
+
+open CelmaVerif.ProgArgs.RulesExample in
+/-- rejected, cardinality: `-q -n 1 -n 2` (at most once), `-q -n 1 -l 1,2,3,4` (at most 3 values) -/
+example : (run [useQ, useN "1", useN "2"]).isThrow = true ∧
+    (run [useQ, useN "1", useL "1,2,3,4"]).isThrow = true := by decide
+
+open CelmaVerif.ProgArgs.RulesExample in
+/-- rejected, excludes: `-q -n 1 -v` (`-q` excludes `--verbose`) -/
+example : (run [useQ, useN "1", useV]).isThrow = true := by decide
+
+open CelmaVerif.ProgArgs.RulesExample in
+/-- rejected, requires: `-q -n 1 -o f` (`-o` requires `-n` from the point where `-o` is used);
+    accepted in the other order -/
+example : (run [useQ, useN "1", useO "f"]).isThrow = true ∧ (run [useQ, useO "f", useN "1"]).isOk = true := by
+  decide
+
+open CelmaVerif.ProgArgs.RulesExample in
+/-- rejected, handler constraint: `-n 1` (neither `-v` nor `-q`) -/
+example : (run [useN "1"]).isThrow = true := by decide
 
 end CelmaVerif.Props.C02
